@@ -415,6 +415,7 @@ CHECKS = {
         "subs": [
             {"name": "loss", "test": "TestLoss", "quick": 500, "thorough": 6000, "shards": 16},
             {"name": "loss-all-k", "test": "TestLossAllK", "quick": None, "thorough": None, "shards": 16, "enum": True},
+            {"name": "callbacks-loss-rt", "test": "TestCallbacksLoss", "quick": 30, "thorough": 200, "shards": 4},
         ],
     },
     "C14": {
